@@ -373,6 +373,10 @@ class PathEval:
             if s["dst"] is None:
                 continue
             self.assign(s["dst"], self.rvalue(s["rv"], place_ty(self.f, s["dst"])), b)
+            if s["rv"]["op"] in ("ref", "addr") and s["rv"].get("mut") and not s["dst"]["p"] and not any(e == "deref" or (isinstance(e, dict) and e.get("deref")) for e in s["rv"]["place"]["p"]):
+                if not hasattr(self, "mutrefs"):
+                    self.mutrefs = {}
+                self.mutrefs[s["dst"]["l"]] = s["rv"]["place"]["l"]
         t = blk["term"]
         if t["k"] == "call":
             c = t["callee"]
@@ -395,6 +399,16 @@ class PathEval:
                 if any("&mut" in (operand_ty(self.f, a) or "") for a in t["args"]):
                     if not (self.keep_mem and c.get("key") and self.keep_mem(c["key"])):
                         self.mem = {}
+                    else:
+                        # the rest of memory is kept, but the local the callee got `&mut` of has changed: what was
+                        # known about its value (an initial `Move::default()`, say) is no longer its value
+                        refs = getattr(self, "mutrefs", {})
+                        for a in t["args"]:
+                            if a.get("k") in ("copy", "move") and not a["pl"]["p"] and a["pl"]["l"] in refs:
+                                root = refs[a["pl"]["l"]]
+                                if root > self.f["args"] and root in self.env:
+                                    self.env[root] = ("havoc", root, b)
+                                    self.mem = {k_: v_ for k_, v_ in self.mem.items() if ("local", root) not in list(leaves(k_))}
             self.assign(t["dest"], tree, b)
         elif t["k"] == "switch" and nxt is not None:
             d = self.operand(t["discr"])
